@@ -2,6 +2,7 @@ import Pko.Drv.PhaseCommon
 import Pko.Model.ObjectSet
 import Pko.Model.Remote
 import Pko.Model.Slices
+import Pko.Model.Converge
 /-! Shared part of the controller-level ("sys") drivers: scenario decoding, running the
 ObjectSet controller model over a schedule, canonical printing — the format of
 `harness/verifsys/sys.go`. -/
@@ -43,6 +44,12 @@ structure JFault where
   budget : Nat
   deriving FromJson, Repr
 
+/-- `Step.WFault` of sys.go: the `at`-th write on a managed object of the pass is refused. -/
+structure JWFault where
+  «at» : Nat
+  «class» : String
+  deriving FromJson, Repr
+
 structure JStep where
   op : String
   set : String
@@ -54,6 +61,7 @@ structure JStep where
   setEnv : Option (List JSetEnv)
   fault : Option JFault := none     -- C10 only
   drift : Option Bool := none       -- C10 only
+  wfault : Option JWFault := none   -- op = reconcile | phase: a refused write on a managed object
   deriving FromJson, Repr
 
 structure Scn where
@@ -128,6 +136,7 @@ def sliceObjs (s : Scn) (name : String) : List (List PObj) :=
 def toSetEnv (e : JSetEnv) : Nat × SetEnvOp :=
   (e.at, match e.op with
     | "lifecycle" => .lifecycle e.set (toLifecycle e.value)
+    | "status" => .status e.set e.value
     | _ => .touch e.set)
 
 /-- flavour of the same-cluster ObjectSetPhase controller serving the scenario's phases. -/
@@ -156,7 +165,7 @@ def phaseEventStr (kind : String) : PhaseEvent → String
   | .statusUpdate n r conds co => s!"S {n} {resOr r} rev=0 conds=[{condsStr conds}] co=[{crefsStr co}]"
 
 def ophaseStr (p : OPhase) : String :=
-  s!"{p.name}\{g={p.gen},d={b01 p.deleting},f={if p.finCached then "c" else ""},paused={b01 p.paused},rev={p.revision} conds=[{condsStr p.conds}] co=[{crefsStr p.controllerOf}]}"
+  s!"{p.name}\{g={p.gen},d={b01 p.deleting},f={if p.finCached then "c" else ""}{if p.finOrphan then "o" else ""},paused={b01 p.paused},rev={p.revision} conds=[{condsStr p.conds}] co=[{crefsStr p.controllerOf}]}"
 
 def resStr : Res → String
   | .ok => "ok" | .requeue => "requeue" | .err => "err"
@@ -166,6 +175,18 @@ def lifeStr : Lifecycle → String
 
 def osetStr (o : OSet) : String :=
   s!"{o.name}\{g={o.gen},d={b01 o.deleting},f={if o.finCached then "c" else ""}{if o.finOrphan then "o" else ""},life={lifeStr o.lifecycle},rev={o.revision} conds=[{condsStr o.conds}] co=[{crefsStr o.controllerOf}] rp=[{rpStr o.remotePhases}]}"
+
+/-- (S1B) every key a managed object of the scenario can live under, in the order the store lists
+its objects (`Store.Snapshot`: sorted by kind / namespace / name) — the order the garbage
+collector visits dependents in (`gcPhase`). -/
+def gcKeys (s : Scn) (cfg : Cfg) : List Key :=
+  let fromStore := (s.store.getD []).map (fun o => (⟨o.kind, o.ns, o.name⟩ : Key))
+  let fromSets := (s.sets.getD []).flatMap fun js =>
+    (js.phases.getD []).flatMap fun ph => ((ph.objects.getD []) ++ (ph.slices.getD []).flatMap (·.objects.getD [])).map fun p =>
+      let ow : Owner := { group := pkoGroup, kind := setKindOf s, ns := nsOf s, name := js.name, uid := "", rev := 0, paused := false, pkgLabel := "" }
+      keyOf cfg ow (toPObj p)
+  let ks := (fromStore ++ fromSets).eraseDups
+  (sortStrings (ks.map keyStr)).filterMap fun x => ks.find? (keyStr · == x)
 
 /-- one schedule step; returns the output token of the step. -/
 def stepModel (scn : Scn) (cfg : Cfg) (st : JStep) (s : Sys) : Sys × String :=
@@ -180,7 +201,7 @@ def stepModel (scn : Scn) (cfg : Cfg) (st : JStep) (s : Sys) : Sys × String :=
   | "phase" =>
     let s0 : Sys := { s with w := { s.w with writes := 0, env := (st.env.getD []).map toEnv, events := [], phaseEvents := [], applied := [] },
                              setEvents := [], setWrites := 0, setEnv := [] }
-    let (s1, r) := Pko.Model.Remote.reconcilePhaseCtl (phaseCfgOf scn) (setKindOf scn) (nsOf scn) st.set s0
+    let (s1, r) := Pko.Model.Remote.reconcilePhaseCtl { phaseCfgOf scn with scope := cfg.scope } (setKindOf scn) (nsOf scn) st.set s0
     (s1, stepOut r s1)
   | "env" =>
     ({ s with w := { s.w with store := (st.env.getD []).foldl (fun acc e => acc.env (toEnv e).2) s.w.store } }, "-")
@@ -190,11 +211,101 @@ def stepModel (scn : Scn) (cfg : Cfg) (st : JStep) (s : Sys) : Sys × String :=
   | "editPayload" => (s.applySetEnv (.editPayload st.set st.phase st.obj st.value), "-")
   | "restart" => (s, "-")
   | "delSlice" => ({ s with slices := s.slices.filter (·.1 != st.set) }, "-")   -- a third party deletes an ObjectSlice
+  -- (S1B) third-party operations on a delegated phase's API object
+  | "delPhase" => ({ s with w := Pko.Model.Remote.deletePhaseObject s.w st.set st.orphan (st.value == "force") (gcKeys scn cfg) }, "-")
+  | "gcPhase" => ({ s with w := Pko.Model.Remote.gcPhaseObject s.w st.set (gcKeys scn cfg) }, "-")
   | _ => (s, "BAD-STEP")
 where
   stepOut (r : Res) (s1 : Sys) : String :=
     let pk := Pko.Model.Remote.phaseKindOf (setKindOf scn)
     s!"R {resStr r} | {eventsStr s1.w} | {";".intercalate (s1.setEvents.map setEventStr)} | {";".intercalate (s1.w.phaseEvents.map (phaseEventStr pk))}"
+
+
+/-! ### Environment behaviour beyond edits of single objects (generators of `gen_env.go`)
+
+* `rescope` steps: the REST mapper's answer for a kind changes during the history.  The overrides
+  live in `Sys.scopeOv`; `cfgAt` builds the configuration a step runs with.
+* refused writes (`Step.WFault`): the API answers the `at`-th write on a managed object of a pass
+  with an error.  For every error class the harness injects, the code returns the error at once:
+  the pass ends `err` and leaves behind what it had written before that request — the prefix
+  state the ghost fields `crashAt` / `snap` / `trail` keep (see `Pko.Model.Converge`); the ghost
+  `World.ticks` tells which request of the pass the refused write is. -/
+
+def scopeWith (base : String → Scope) (ov : List (String × Scope)) : String → Scope :=
+  fun k => match ov.find? (·.1 = k) with
+    | some e => e.2
+    | none => base k
+
+/-- the configuration as the REST mapper answers when a step runs on state `s`. -/
+def cfgAt (cfg : Cfg) (s : Sys) : Cfg := { cfg with scope := scopeWith cfg.scope s.scopeOv }
+
+def toScope : String → Scope
+  | "namespaced" => .namespaced
+  | "cluster" => .cluster
+  | _ => .unknown
+
+/-- the API of `kind` is removed / registered again with scope `sc`: its objects go with it. -/
+def rescope (kind : String) (sc : Scope) (s : Sys) : Sys :=
+  { s with scopeOv := (kind, sc) :: s.scopeOv,
+           w := { s.w with store := { s.w.store with objs := fun k => if k.kind = kind then none else s.w.store.objs k } } }
+
+/-- third parties address an object of a cluster-scoped kind without namespace (the API ignores it). -/
+def normEnv (cfg : Cfg) (e : JEnv) : JEnv := if cfg.scope e.kind = .cluster then { e with ns := "" } else e
+
+def wfaultClasses : List String := ["Conflict", "Forbidden", "Invalid", "BadRequest", "Error"]
+
+def refusedEventStr (cls : String) : Event → String
+  | .apply k _ _ => s!"A {keyStr k} !{cls}"
+  | .merge k _ owners _ => s!"M {keyStr k} !{cls} [{refsStr owners}]"
+  | .delete k u _ _ => s!"D {keyStr k} u={u} rv {cls}"
+
+/-- reset the per-pass ghost state (incl. the request log) and arm the crash point. -/
+def armT (s : Sys) (c : Option Nat) : Sys :=
+  let a := Pko.Model.Converge.arm s c
+  { a with w := { a.w with ticks := [] } }
+
+/-- per request of a completed pass: is it a write on a managed object / on a phase object
+(otherwise: on the ObjectSet), and how many managed / phase-object writes preceded it. -/
+def requestKinds (w : World) : List (Nat × Nat × Bool × Bool) :=
+  let nexts := w.ticks.drop 1 ++ [(w.writes, w.phaseEvents.length)]
+  (w.ticks.zip nexts).map fun (t, n) => (t.1, t.2, decide (n.1 = t.1 + 1), decide (n.2 = t.2 + 1))
+
+/-- a pass in which write number `f.at` on a managed object is refused with class `f.class`. -/
+def refusedStep (scn : Scn) (cfg : Cfg) (st : JStep) (f : JWFault) (s : Sys) : Sys × String :=
+  let st := { st with setEnv := none }
+  let (s1, _) := stepModel scn cfg st (armT s none)
+  let reqs := requestKinds s1.w
+  match reqs.zipIdx.find? (fun (r, _) => r.2.2.1 && r.1 = f.at) with
+  | none => stepModel scn cfg st s                  -- the pass issues fewer writes: nothing is refused
+  | some (r, c) =>
+    if !wfaultClasses.contains f.class then stepModel scn cfg st s
+    else
+      let s0 := armT s (some c)
+      let (s2, _) := stepModel scn cfg st s0
+      let cut := Pko.Model.Converge.crashState s0 s2 c
+      -- third-party operations scheduled right before the refused write did happen
+      let due := ((st.env.getD []).map toEnv).filter (·.1 = f.at)
+      let cut := { cut with w := { cut.w with store := due.foldl (fun acc e => acc.env e.2) cut.w.store } }
+      let nset := ((reqs.take c).filter fun q => !q.2.2.1 && !q.2.2.2).length
+      let evs := eventsStr { s1.w with events := s1.w.events.take f.at }
+      let refused := match s1.w.events[f.at]? with
+        | some e => refusedEventStr f.class e
+        | none => "?"
+      let evs := if evs.isEmpty then refused else evs ++ ";" ++ refused
+      let pk := Pko.Model.Remote.phaseKindOf (setKindOf scn)
+      (cut, s!"R err | {evs} | {";".intercalate ((s1.setEvents.take nset).map setEventStr)} | {";".intercalate ((s1.w.phaseEvents.take r.2.1).map (phaseEventStr pk))}")
+
+/-- one schedule step of the sys stream, with the environment behaviour above. -/
+def stepModelX (scn : Scn) (cfg0 : Cfg) (st : JStep) (s : Sys) : Sys × String :=
+  let cfg := cfgAt cfg0 s
+  let st := if s.scopeOv.isEmpty then st else { st with env := st.env.map (·.map (normEnv cfg)) }
+  if st.op = "rescope" then
+    if st.set = "NsThing" ∨ st.set = "ClThing" then (rescope st.set (toScope st.value) s, "-") else (s, "BAD-STEP")
+  else match st.wfault with
+    | some f => if st.op = "reconcile" ∨ st.op = "phase" then refusedStep scn cfg st f s else stepModel scn cfg st s
+    | none => stepModel scn cfg st s
+
+def hasRescope (s : Scn) : Bool := (s.steps.getD []).any (·.op = "rescope")
 
 def setNames (s : Scn) : List String := (s.sets.getD []).map (·.name)
 
@@ -209,7 +320,7 @@ def managedKeys (s : Scn) (cfg : Cfg) : List Key :=
 def runModel (s : Scn) : List String × Sys :=
   let cfg := cfgOf s
   (s.steps.getD []).foldl (fun (acc : List String × Sys) st =>
-    let (sys', o) := stepModel s cfg st acc.2
+    let (sys', o) := stepModelX s cfg st acc.2
     (acc.1 ++ [o], sys')) ([], initSys s)
 
 def model (s : Scn) : String :=
@@ -218,7 +329,12 @@ def model (s : Scn) : String :=
   let sets := sortStrings (((setNames s).filterMap fun n => (sys.sets n).map osetStr) ++
     (phaseNames.filterMap fun n => (sys.w.phases n).map ophaseStr) ++
     (sys.slices.map fun sl => (if s.cluster then "ClusterObjectSlice/" else "ObjectSlice/") ++ sl.1))
-  let objs := sortStrings ((managedKeys s (cfgOf s)).filterMap fun k => (sys.w.store.get k).map (objStr k))
+  -- (after a `rescope` an object may live under the key of either scope)
+  let keys := if hasRescope s then
+      (managedKeys s (cfgOf s) ++ managedKeys s { cfgOf s with scope := fun _ => .namespaced } ++
+        managedKeys s { cfgOf s with scope := fun _ => .cluster }).eraseDups
+    else managedKeys s (cfgOf s)
+  let objs := sortStrings (keys.filterMap fun k => (sys.w.store.get k).map (objStr k))
   " ## ".intercalate (outs ++ [";".intercalate sets, ";".intercalate objs])
 
 end Pko.Drv.SysCommon
